@@ -65,7 +65,10 @@ let listener_of (l : string) : listener =
 let client_of (l : string) (client : string) : addr =
   match l with
   | "udp" | "udpmr" | "tcp" | "gnet" | "tls" | "quic" -> A4 [n_of_int 127; n_of_int 0; n_of_int 0; n_of_int 1]
-  | _ -> parse_addr client      (* the DoH listeners are configured with a client-address header: absent => unknown *)
+  | _ ->
+    (* the DoH listeners are configured with a client-address header: absent => unknown; a list => its first element *)
+    let c = (match String.index_opt client ',' with Some i when i > 0 -> String.sub client 0 i | _ -> client) in
+    parse_addr c
 
 let verdict_str (v : verdict) : string = match v with
   | VOk -> "ok" | VUndecodable -> "FAIL:c03-undecodable" | VHeader -> "FAIL:c03-header"
@@ -99,6 +102,10 @@ let parse_obs (s : string) : (nat * n list) list =
 (* handle: model's prediction of what the client receives and what the upstreams observe *)
 let run_handle parts =
   let f = fields parts in
+  if (try List.assoc "hv" f = "bad" with Not_found -> false) then
+    (* a client-address header that is no address: 400 Bad Request, nothing handled, nothing forwarded *)
+    "st=http-400 n=0 resp=- upq=- || spec=ok"
+  else
   let c = parse_cfg (fld f "cfg") in
   let l = fld f "l" in
   let lk = listener_of (List.hd (String.split_on_char '-' l)) in
